@@ -369,6 +369,23 @@ def unsat(lits):
             bools[l[1]] = l[2]
     if not (les or eqs or nes):
         return False
+    # canonical form of every mod atom ((t + j*m) mod m == t mod m) before looking for syntactic matches
+    ms0 = set()
+    for L in les + eqs + nes:
+        for a in atoms_deep(L):
+            if a[0] == "mod":
+                ms0.add(a[2])
+    if ms0:
+        empty = {m: {} for m in ms0}
+        les = [_rewrite_lin(L, empty) for L in les]
+        eqs = [_rewrite_lin(L, empty) for L in eqs]
+        nes = [_rewrite_lin(L, empty) for L in nes]
+    # a pair L <= 0, -L <= 0 is the equality L == 0 (needed by the congruence reasoning, which reads equalities)
+    if len(les) > 1:
+        keys = {L.key() for L in les}
+        for L in list(les):
+            if (-L).key() in keys and L.key() < (-L).key():
+                eqs.append(L)
     key = (frozenset(les), frozenset(eqs), frozenset(nes))
     r = _MEMO.get(key)
     if r is not None:
@@ -392,7 +409,7 @@ def unsat(lits):
             m = ("mod", a[1], a[2])
             if m not in atoms:
                 atoms.add(m)
-        elif a[0] == "mod" and a[2] > 4:
+        elif a[0] == "mod":
             # t = m*(t div m) + (t mod m): lets "t - t mod m != 0" conclude "t >= m"
             atoms.add(("div", a[1], a[2]))
     ax = atom_axioms(atoms, atoms)
